@@ -37,6 +37,7 @@ def dispatch (cmd : String) (args : List Sexp) : Option String :=
   | "taint.names" => Driver.Resolve.taintNames args
   | "freeze.locals" => Driver.Freeze.locals args
   | "freeze.globals" => Driver.Freeze.globals args
+  | "hoist.collect" => Driver.HoistCollect.collectCmd args
   | "hoist.place" => Driver.Rename.hoistPlace args
   | "rename.assign" => Driver.Rename.assignCmd args
   | "ministring" => Driver.Strings.ministring args
